@@ -15,7 +15,7 @@ PROP = "C05"
 
 VALUES = {
     "v1": {"n": 0, "tag": 11, "time": 1000},   # the empty value
-    "v2": {"n": 40, "tag": 22, "time": 4102444800000, "metadata": {"name": "long-record-é", "list": [1, 2.5, None]}, "raw_metadata": b"\x00\xff\x10"},
+    "v2": {"n": 40, "tag": 22, "time": 2 ** 64 + 4102444800000, "metadata": {"name": "long-record-é", "list": [1, 2.5, None]}, "raw_metadata": b"\x00\xff\x10"},
 }
 
 
